@@ -475,6 +475,84 @@ def run_scaling(shard, ctx, sm, rng):
         for big_n in stages:
             if cpu_stage(ctx, name, f, cls, rng, cpu, big_n, vbig, n1, n2):
                 break
+        else:
+            # responses built to be expensive for hashing: entries that are all different but whose natural keys (the integer value
+            # of an identifier; the tuple of a descriptor's fields) have one and the same hash value
+            for label, mk in ADVERSARIAL.get(name, ()):
+                small_b, big_b = mk(2048), mk(8192)
+                over, ratios = 0, []
+                for _round in range(3):
+                    t1, t2 = min(cpu(small_b, {}), cpu(small_b, {})), cpu(big_b, {})
+                    ratios.append(round(t2 / max(t1, 1e-6), 1))
+                    if t2 > 0.05 and t2 > 2.2 * (len(big_b) / len(small_b)) * max(t1, 1e-4):
+                        over += 1
+                    else:
+                        break
+                ctx.count("hash_adversarial_responses_timed")
+                ctx.case(("cpu-adversarial", name, label), True)
+                if over == 3:
+                    ctx.fail("C11:%s.superlinear_work.cpu_time" % name, "%s on %s: %d bytes cost %s times the processor time of %d bytes, in three measurements" % (name, label, len(big_b), ratios, len(small_b)),
+                             {"decoder": name, "input": label, "bytes": [len(small_b), len(big_b)], "cpu_ratio": ratios})
+
+
+M61 = (1 << 61) - 1
+_M64 = (1 << 64) - 1
+_XP1, _XP2, _XP5 = 11400714785074694791, 14029467366897019727, 2870177450012600261
+
+
+def _tuple_hash(items):
+    """CPython's hash of a tuple of non-negative ints below 2**61-1 (xxHash based, 3.8+)"""
+    acc = _XP5
+    for x in items:
+        acc = (acc + x * _XP2) & _M64
+        acc = ((acc << 31) | (acc >> 33)) & _M64
+        acc = (acc * _XP1) & _M64
+    return (acc + (len(items) ^ (_XP5 ^ 3527539))) & _M64
+
+
+def _first_item_for(target, rest):
+    """the first item (if it is below 2**61-1) that gives the tuple (item, *rest) the hash `target`"""
+    inv1, inv2 = pow(_XP1, -1, 1 << 64), pow(_XP2, -1, 1 << 64)
+    acc = (target - ((len(rest) + 1) ^ (_XP5 ^ 3527539))) & _M64
+    for x in reversed(rest):
+        acc = (acc * inv1) & _M64
+        acc = ((acc >> 31) | (acc << 33)) & _M64
+        acc = (acc - x * _XP2) & _M64
+    acc = (acc * inv1) & _M64
+    acc = ((acc >> 31) | (acc << 33)) & _M64
+    return ((acc - _XP5) * inv2) & _M64
+
+
+def adversarial_getlbastatus(n):
+    """n different extents whose (lba, number of blocks, status) tuples all have the same hash"""
+    out = bytearray()
+    target = _tuple_hash((4096, 8, 0))
+    nb = 1
+    while len(out) < 16 * n:
+        nb += 1
+        lba = _first_item_for(target, (nb, 1))
+        if lba < M61 and hash((lba, nb, 1)) == hash((4096, 8, 0)):
+            out += lba.to_bytes(8, "big") + nb.to_bytes(4, "big") + bytes([1, 0, 0, 0])
+    return bytes((len(out) + 4).to_bytes(4, "big") + bytes(4) + out)
+
+
+def adversarial_reportpriority(n):
+    """n different 24-byte TransportIDs of one port whose integer values are congruent modulo 2**61-1"""
+    base = int.from_bytes(bytes([0x00]) + bytes(7) + bytes(range(1, 17)), "big")
+    body = b"".join(bytes([3, 0, 0, 1, 0, 0, 0, 24]) + (base + i * M61).to_bytes(24, "big") for i in range(n))
+    return len(body).to_bytes(4, "big") + body
+
+
+def adversarial_reportluns(n):
+    """n different LUNs ... as many of one hash value as 64 bits allow (8), repeated patterns of them"""
+    luns = [(7 + (i % 8) * M61 + (i // 8) * 8 * M61) & _M64 for i in range(n)]
+    body = b"".join(x.to_bytes(8, "big") for x in luns)
+    return len(body).to_bytes(4, "big") + bytes(4) + body
+
+
+ADVERSARIAL = {"getlbastatus": [("extents whose field tuples share one hash value", adversarial_getlbastatus)],
+               "reportpriority": [("TransportIDs congruent modulo 2**61-1", adversarial_reportpriority)],
+               "reportluns": [("LUNs congruent modulo 2**61-1", adversarial_reportluns)]}
 
 
 def cpu_stage(ctx, name, f, cls, rng, cpu, big_n, vbig, n1, n2):
@@ -561,6 +639,40 @@ def run_vpd_any(shard, ctx, sm, rng):
                     continue
                 sizes.setdefault(shape, []).append((len(m), steps))
                 ctx.maximum("budget_fraction", round(steps / (BASE + SLOPE * len(m)), 4), {"decoder": "inquiry.vpd%02x" % page, "len": len(m), "steps": steps})
+        # one descriptor holding a long text (a URL, a name) made to be expensive for Unicode processing: a base letter followed by
+        # a long run of combining marks in alternating classes (any normalisation has to reorder them).  Processor time for 15 KiB
+        # and 60 KiB of it
+        import time as _time
+
+        def text_page(nbytes):
+            marks = ("\u0301\u0316" * (nbytes // 4)).encode("utf-8")
+            url = b"http://a" + marks + b".example/x"
+            body = bytes([0x21, 0]) + len(url).to_bytes(2, "big") + url
+            return bytes([0x00, page]) + len(body).to_bytes(2, "big") + body
+
+        def cpu_of(m):
+            t0 = _time.thread_time()
+            try:
+                Inquiry.unmarshall_datain(bytearray(m), evpd=1)
+            except Exception:  # noqa: BLE001
+                pass
+            return _time.thread_time() - t0
+
+        small_m, big_m = text_page(15000), text_page(60000)
+        over = 0
+        ratios = []
+        for _round in range(3):
+            t1, t2 = min(cpu_of(small_m), cpu_of(small_m)), cpu_of(big_m)
+            ratios.append(round(t2 / max(t1, 1e-6), 1))
+            if t2 > 0.05 and t2 > 2.2 * (len(big_m) / len(small_m)) * max(t1, 1e-4):
+                over += 1
+            else:
+                break
+        ctx.count("hostile_text_pages_timed")
+        ctx.case(("vpd-any-text", page), True)
+        if over == 3:
+            ctx.fail("C11:inquiry.vpd%02x.superlinear_work.cpu_time" % page, "VPD page %02Xh with one long text made of combining marks: %d bytes cost %s times the processor time of %d bytes, in three measurements"
+                     % (page, len(big_m), ratios, len(small_m)), {"decoder": "inquiry.vpd%02x" % page, "bytes": [len(small_m), len(big_m)], "cpu_ratio": ratios})
         for shape, res in sizes.items():
             if len(res) != 2:
                 continue
